@@ -313,6 +313,25 @@ func RunRefDeal(c RefDealCase) (res RefDealResult) {
 		expMemo[x] = sum
 		return sum
 	}
+	// the REAL dealers, seen from a reference receiver: every share a real dealer sends is the image of the vector it broadcast
+	if c.Order == 0 {
+		for d, m := range realShares {
+			for i, msg := range m {
+				if len(msg) != 33 || msg[0] != 0 {
+					add("C07", "DealerSharesMatchVector", fmt.Sprintf("real dealer %d sends participant %d a malformed share message", d, i))
+					continue
+				}
+				acc := ref.G2{Inf: true}
+				for k := c.T; k >= 0; k-- {
+					acc = acc.Mul(big.NewInt(int64(i + 1))).Add(parsed[d][k])
+				}
+				res.Evals++
+				if !ref.G2Gen.Mul(new(big.Int).SetBytes(msg[1:])).Equal(acc) {
+					add("C07", "DealerSharesMatchVector", fmt.Sprintf("the share real dealer %d sends to participant %d is not the image of the vector it broadcast (reference arithmetic)", d, i))
+				}
+			}
+		}
+	}
 	groupIsIdentity := expectedPK(0).Inf
 	if c.Outcome != "" && groupIsIdentity != (c.Outcome == "fail") {
 		panic(fmt.Sprintf("harness: the reference group key contradicts the specification (identity: %v, prescribed outcome %s)", groupIsIdentity, c.Outcome))
